@@ -216,6 +216,11 @@ func (g *genCtx) item(class string) Item {
 		}
 		return in(class, csi(strings.Join(ps, ";")+"m"))
 	case "wrap":
+		if r.chance(1, 10) {
+			// the buffer switch and the autowrap setting in one sequence: each mode acts on the
+			// buffer that is active when its turn comes
+			return in(class, csi(pick(r, []string{"?1049;7h", "?7;1049h", "?1049;7l", "?7;1049l", "?1049;7;1049h"})))
+		}
 		return in(class, csi(pick(r, []string{"?7h", "?7l", "?7h"})))
 	case "mode":
 		if r.chance(1, 8) {
@@ -224,6 +229,10 @@ func (g *genCtx) item(class string) Item {
 		}
 		modes := []string{"1", "7", "9", "12", "25", "1000", "1002", "1003", "1004", "1005", "1006", "1015", "1049", "2004", "1034", "3", "47", "0", "",
 			"1007", "1048", "2026", "69", "1001"}
+		if r.chance(1, 7) {
+			// one sequence naming the buffer switch together with per-buffer or repeated modes
+			return in(class, csi("?"+pick(r, []string{"1049;7", "7;1049", "1049;1049", "25;1049;1049", "1049;25;1049", "1049;1;7", "1049;1004;1049;7", "1049;2004"})+pick(r, []string{"h", "l"})))
+		}
 		n := 1
 		if r.chance(1, 4) {
 			n = 2 + r.intn(3)
@@ -272,6 +281,15 @@ func (g *genCtx) item(class string) Item {
 		if r.chance(1, 4) {
 			payload = append(payload, pick(r, [][]byte{[]byte("✜"), []byte("Ü"), []byte("œ"), []byte("🌜"), []byte("😜x"), []byte("𐀜"), {27, 'x'}, []byte(";a;b"), []byte("\\"), {0xc2, 0x9c}})...)
 		}
+		if r.chance(1, 25) {
+			// a long string: around the reader's buffer sizes, and well beyond
+			n := pick(r, []int{4090, 4093, 4094, 4095, 4096, 4097, 4100, 5000, 8190, 8192, 8195}) + r.intn(3)
+			long := make([]byte, n)
+			for k := range long {
+				long[k] = byte('a' + k%26)
+			}
+			payload = append(long, payload...)
+		}
 		term := pick(r, [][]byte{{7}, {27, '\\'}, {7}, {0x9c}})
 		if r.chance(1, 6) {
 			// the payload ends in an incomplete multi-byte character (a title cut short, Latin-1 text)
@@ -290,6 +308,14 @@ func (g *genCtx) item(class string) Item {
 		payload := g.text(r.intn(8), true, false)
 		if r.chance(1, 3) {
 			payload = append(payload, pick(r, [][]byte{[]byte("✜"), []byte("🌜"), []byte("😜q"), []byte("Ü"), {7}, {27, 'x'}, []byte("$q"), {10}})...)
+		}
+		if r.chance(1, 25) {
+			n := pick(r, []int{4090, 4094, 4095, 4096, 4097, 5000, 8192}) + r.intn(3)
+			long := make([]byte, n)
+			for k := range long {
+				long[k] = byte('a' + k%26)
+			}
+			payload = append(long, payload...)
 		}
 		term := pick(r, [][]byte{{27, '\\'}, {0x9c}})
 		return in(class, append(append([]byte("\x1bP"), payload...), term...))
@@ -548,13 +574,18 @@ func (g *genCtx) macro(name string) []Item {
 		// indicator / an emoji somewhere else: each is a character of its own
 		goTo(r.intn(g.h), r.intn(g.w))
 		add("textwide", pick(r, []string{"\U0001F1E9", "a\U0001F1EA", "\U0001F468\u200d", "x\u200d"}))
-		switch r.intn(4) {
+		switch r.intn(6) {
 		case 0:
 			add("crlf", "\r\n")
 		case 1:
 			goTo(r.intn(g.h), r.intn(g.w))
 		case 2:
 			out = append(out, g.item("sgr"))
+		case 3:
+			// every control byte ends the claim, DEL and NUL included
+			add("c0", pick(r, []string{"\x7f", "\x7f\x7f", "\b", "\t", "\a", "\x00", "\x0e", "\x1f"}))
+		case 4:
+			add("esc", pick(r, []string{"\x1bM", "\x1b7", "\x1b[s", "\x1b[0m", "\x1b]0;t\a"}))
 		default:
 			add("c0", "\r")
 		}
